@@ -13,12 +13,12 @@
                                                                        ZeroDivisionError when store_step = 0)
          step = i + t0;  rhs = func(step, y, *args)
          euler:  y += dt*rhs
-         heun :  y_0 = y + dt*rhs;  y += dt/2*(rhs + func(step, y_0, *args))
+         heun :  rhs = np.array(func(step, y, *args));  y_0 = y + dt*rhs;  y += dt/2*(rhs + func(step, y_0, *args))
    The right-hand side is a *stateful* function  f : C -> nat -> row -> row * C  (C = whatever the compiled
-   function keeps between calls: ring buffers, a call counter ...).  One piece of that hidden state matters for
-   Heun itself: the generated function of the default backend writes into the caller's `dy` buffer and returns
-   that same buffer, so `rhs` is an alias of the buffer the second call overwrites.  The flag `aliased` says
-   whether f returns its internal buffer (generated code: yes) or a fresh array.
+   function keeps between calls: ring buffers, a call counter ...).  The generated function of the default backend
+   writes into the caller's `dy` buffer and returns that same buffer; since fix D36 the Heun loop copies the first
+   result, so the value of `rhs` no longer depends on the second call (`heun_step_before_D36` records what the loop
+   computed before: `rhs` was an alias of the buffer the second call overwrites).
    Rows of state_rec that are never written are np.empty garbage: outcome `Short`. *)
 From Coq Require Import List ZArith QArith Qcanon Qround Bool Arith Lia.
 From PV Require Import History.
@@ -102,21 +102,28 @@ Section Steps.
   Definition euler_step (dt : Qc) (c : C) (t : nat) (y : row) : row * C :=
     let '(r, c1) := f c t y in (vadd y (vscale dt r), c1).
 
-  (* rhs = func(step, y);  y_0 = y + dt*rhs;  y += dt/2*(rhs + func(step, y_0))
-     `rhs + func(...)`: Python evaluates the name `rhs` (a reference), then the call (which overwrites the buffer
-     when f returns its own buffer), then adds: with aliased = true both operands are the second result. *)
-  Definition heun_step (aliased : bool) (dt : Qc) (c : C) (t : nat) (y : row) : row * C :=
+  (* rhs = np.array(func(step, y));  y_0 = y + dt*rhs;  y += dt/2*(rhs + func(step, y_0)); both stages get `step` *)
+  Definition heun_step (dt : Qc) (c : C) (t : nat) (y : row) : row * C :=
     let '(r1, c1) := f c t y in
     let y_0 := vadd y (vscale dt r1) in
     let '(r2, c2) := f c1 t y_0 in
-    let rhs := if aliased then r2 else r1 in
-    (vadd y (vscale (dt / (Q2Qc 2))%Qc (vadd rhs r2)), c2).
+    (vadd y (vscale (dt / (Q2Qc 2))%Qc (vadd r1 r2)), c2).
 
-  Definition step_of (s : solver) (aliased : bool) (dt : Qc) : C -> nat -> row -> row * C :=
-    match s with Euler => euler_step dt | Heun => heun_step aliased dt end.
+  (* before fix D36 (rhs = func(step, y) without the copy) with a right-hand side that returns its own buffer:
+     `rhs + func(...)` evaluates the name `rhs` (a reference), then the call (which overwrites the buffer), then
+     adds: both operands are the second result.  Only used to state what the fix changed. *)
+  Definition heun_step_before_D36 (dt : Qc) (c : C) (t : nat) (y : row) : row * C :=
+    let '(r1, c1) := f c t y in
+    let y_0 := vadd y (vscale dt r1) in
+    let '(r2, c2) := f c1 t y_0 in
+    (vadd y (vscale (dt / (Q2Qc 2))%Qc (vadd r2 r2)), c2).
+
+  Definition step_of (s : solver) (dt : Qc) : C -> nat -> row -> row * C :=
+    match s with Euler => euler_step dt | Heun => heun_step dt end.
 End Steps.
 Arguments euler_step {C}.
 Arguments heun_step {C}.
+Arguments heun_step_before_D36 {C}.
 Arguments step_of {C}.
 
 Inductive outcome :=
@@ -130,13 +137,13 @@ Definition finish (rec : list row) (store_steps : nat) : outcome :=
   if (length rec =? store_steps)%nat then Rows rec else Short rec (store_steps - length rec).
 
 (* BaseBackend._solve_euler / _solve_heun *)
-Definition solve {C} (f : C -> nat -> row -> row * C) (s : solver) (aliased : bool)
+Definition solve {C} (f : C -> nat -> row -> row * C) (s : solver)
            (T dt dts : Qc) (y0 : row) (c0 : C) (t0 : nat) : outcome :=
   let steps := rnd (T / dt) in
   let store_steps := rnd (T / dts) in
   let ss := rnd (dts / dt) in
   if (ss =? 0)%nat then (if (steps =? 0)%nat then finish [] store_steps else ErrZeroDiv)
-  else match loopE (step_of f s aliased dt) ss store_steps t0 0 steps y0 c0 [] with
+  else match loopE (step_of f s dt) ss store_steps t0 0 steps y0 c0 [] with
        | None => ErrIndex
        | Some rec => finish rec store_steps
        end.
@@ -157,11 +164,11 @@ Definition frame (cutoff : Qc) (ts : list Qc) (cols : list nat) (rec : list row)
    ComputeGraph.run reads results[-1]: IndexError on an empty record.
    A single row with >= 2 requested columns: np.squeeze makes every column 0-d, np.asarray(data).T is 1-D and the
    DataFrame constructor raises ValueError. *)
-Definition run_model {C} (f : C -> nat -> row -> row * C) (s : solver) (aliased : bool)
+Definition run_model {C} (f : C -> nat -> row -> row * C) (s : solver)
            (T dt : Qc) (dts : option Qc) (cutoff : Qc) (cols : list nat) (y0 : row) (c0 : C) : outcome :=
   let d := match dts with Some d => d | None => dt end in
   let n := rnd (T / d) in
-  match solve f s aliased T dt d y0 c0 0 with
+  match solve f s T dt d y0 c0 0 with
   | Rows rec =>
       if (n =? 0)%nat then ErrIndex
       else if (n =? 1)%nat && (2 <=? length cols)%nat then ErrShape
@@ -173,12 +180,12 @@ Definition run_model {C} (f : C -> nat -> row -> row * C) (s : solver) (aliased 
 (* Spec *)
 Definition spec_rows {C} (f : C -> nat -> row -> row * C) (s : solver) (T dt dts : Qc) (y0 : row) (c0 : C) (t0 : nat)
   : list row :=
-  map (fun k => fst (traj (step_of f s false dt) t0 0 y0 c0 (k * rnd (dts / dt)))) (seq 0 (rnd (T / dts))).
+  map (fun k => fst (traj (step_of f s dt) t0 0 y0 c0 (k * rnd (dts / dt)))) (seq 0 (rnd (T / dts))).
 
 Definition spec_run {C} (f : C -> nat -> row -> row * C) (s : solver) (T dt : Qc) (dts : option Qc) (cutoff : Qc)
            (cols : list nat) (y0 : row) (c0 : C) : list row :=
   let d := match dts with Some d => d | None => dt end in
-  map (fun k => (NtoQc k * d)%Qc :: pick cols (fst (traj (step_of f s false dt) 0 0 y0 c0 (k * rnd (d / dt)))))
+  map (fun k => (NtoQc k * d)%Qc :: pick cols (fst (traj (step_of f s dt) 0 0 y0 c0 (k * rnd (d / dt)))))
       (filter (fun k => Qcleb cutoff (NtoQc k * d)%Qc) (seq 0 (rnd (T / d)))).
 
 (* ------------------------------------------------------------------------------------------------ *)
@@ -186,9 +193,9 @@ Definition spec_run {C} (f : C -> nat -> row -> row * C) (s : solver) (T dt : Qc
 (* the record is exactly filled: no IndexError, no unwritten row *)
 Definition rows_fit (T dt dts : Qc) : bool :=
   (1 <=? rnd (dts / dt))%nat && (cdiv (rnd (T / dt)) (rnd (dts / dt)) =? rnd (T / dts))%nat.
-(* Heun needs a right-hand side whose first result survives the second call *)
-Definition heun_rhs_fresh (s : solver) (aliased : bool) : bool :=
-  match s with Euler => true | Heun => negb aliased end.
+(* the property's quantifier: the sampling step is a positive integer multiple of the step *)
+Definition sampling_multiple (dt dts : Qc) : bool :=
+  (1 <=? rnd (dts / dt))%nat && Qeq_bool (this (NtoQc (rnd (dts / dt)) * dt)%Qc) (this dts).
 (* at least one row, and not (one row and several columns) *)
 Definition frame_ok (T d : Qc) (ncols : nat) : bool :=
   (1 <=? rnd (T / d))%nat && negb ((rnd (T / d) =? 1)%nat && (2 <=? ncols)%nat).
